@@ -27,7 +27,7 @@ func longInputs(n int) []string {
 func checkC06(ctx *Ctx) {
 	res := ctx.Res
 	L := 3
-	nMut := 3000
+	nMut := 15000
 	sizes := []int{2000, 8000}
 	if !ctx.Quick {
 		L = 4
